@@ -140,3 +140,61 @@ Example C06_ex_oracle_needed :
   | inr _ => False
   end.
 Proof. vm_compute. split; [reflexivity | exact I]. Qed.
+
+(* ========================================================================================== *)
+(* the IPv6 oracle instantiated by the executable model of net/netip (Model/Netip6.v, compared  *)
+(* with the real library on every run by the `netip` family): [ip6_sane] is a theorem of it      *)
+Require Import Model.Netip6 Proofs.Netip6P Proofs.Netip6RoundTripP.
+
+Theorem C06_ip6_model_sane : ip6_sane ip6_model.
+Proof. exact ip6_model_sane. Qed.
+Print Assumptions C06_ip6_model_sane.
+
+Theorem C06_config_is_accepted_netip6 : forall ace psl c ic,
+  new_internal_config ace ip6_model psl c = inl ic ->
+  exists ic1, new_internal_config ace ip6_model psl (new_config ic) = inl ic1.
+Proof. exact config_is_accepted_netip6. Qed.
+Print Assumptions C06_config_is_accepted_netip6.
+
+Theorem C06_same_responses_netip6 : forall ace psl c ic ic1,
+  new_internal_config ace ip6_model psl c = inl ic ->
+  new_internal_config ace ip6_model psl (new_config ic) = inl ic1 ->
+  forall dbg r pre, serve (Some ic1) dbg r pre = serve (Some ic) dbg r pre.
+Proof. exact same_responses_netip6. Qed.
+Print Assumptions C06_same_responses_netip6.
+
+Theorem C06_reconfigure_config_noop_netip6 : forall ace psl c ic dbg,
+  new_internal_config ace ip6_model psl c = inl ic ->
+  let st := (Some ic, dbg) in
+  exists st', step ace ip6_model psl st (OReconfigure (mw_config st)) = (st', None) /\ snd st' = dbg /\
+              forall r pre, mw_serve st' r pre = mw_serve st r pre.
+Proof. exact reconfigure_config_noop_netip6. Qed.
+Print Assumptions C06_reconfigure_config_noop_netip6.
+
+Theorem C06_stable_after_one_round_trip_netip6 : forall ace psl c ic ic1 ic2,
+  new_internal_config ace ip6_model psl c = inl ic ->
+  new_internal_config ace ip6_model psl (new_config ic) = inl ic1 ->
+  new_internal_config ace ip6_model psl (new_config ic1) = inl ic2 ->
+  new_config ic2 = new_config ic1.
+Proof. exact stable_after_one_round_trip_netip6. Qed.
+Print Assumptions C06_stable_after_one_round_trip_netip6.
+
+Theorem C06_stable_partial_netip6 : forall ace psl c ic ic1,
+  new_internal_config ace ip6_model psl c = inl ic ->
+  new_internal_config ace ip6_model psl (new_config ic) = inl ic1 ->
+  same_but_origins (new_config ic1) (new_config ic).
+Proof. exact stable_partial_netip6. Qed.
+Print Assumptions C06_stable_partial_netip6.
+
+Theorem C06_tree_stable_netip6 : forall ace psl cred pna ti tp origins t0 t1 t2,
+  validate_origins ace ip6_model psl cred pna ti tp origins = inl t0 ->
+  validate_origins ace ip6_model psl cred pna ti tp (oelems t0) = inl t1 ->
+  validate_origins ace ip6_model psl cred pna ti tp (oelems t1) = inl t2 -> t2 = t1.
+Proof. exact origins_stable_netip6. Qed.
+Print Assumptions C06_tree_stable_netip6.
+
+(* non-vacuity: the example configuration (with "http://[::1]:9090") round-trips under the model as under [ex_ip6] *)
+Example C06_ex_round_trips_netip6 :
+  ex_trips ex_ace ip6_model ex_psl ex_cfg = ex_trips ex_ace ex_ip6 ex_psl ex_cfg /\
+  match ex_trips ex_ace ip6_model ex_psl ex_cfg with Some (_, c2, c3) => c3 = c2 | None => False end.
+Proof. vm_compute. split; reflexivity. Qed.
